@@ -2021,6 +2021,7 @@ macro_rules! tet {
 
 fn main() {
     let mut ctx = Ctx::from_args("C19");
+    ctx.promote_quick(); // the thorough bounds of this check cost only seconds
     ctx.require(&["equal_via_different_sequences", "projective_rescaled", "identity_noncanonical", "ext_order_tie_on_high_coeff", "hashmap_dedup"]);
     ctx.assume("oracle: raw Montgomery limbs decoded with limbs*R^-1 mod p (num-bigint); projective points decoded with u64 model arithmetic (toy) / C01-C02-checked field operations (shipped); never the library's ==, cmp, Hash or into_affine");
     ctx.assume("hash digests are taken with std DefaultHasher::new() (fixed keys); containers use BuildHasherDefault<DefaultHasher> like HashMapPippenger");
